@@ -2,7 +2,8 @@
 import ast
 
 from ..model import AnalysisError
-from ..lib import FV, decode_new, decode_call, phi_members, is_sym, is_const, is_str, strip_stores, stores_of, tuple_consts
+from ..lib import (FV, decode_new, decode_call, phi_members, is_sym, is_const, is_str, strip_stores, stores_of, tuple_consts,
+                   find_assign, find_assigns, simple_assigns, local_term)
 from ..cfg import always_raises, walk_stmts
 from . import common as cm
 from . import geom
@@ -137,10 +138,8 @@ def d3_reader(chk, repo):
     chk.require(news, "_from_vtk: no Field construction")
     r, a = news[0]
     d = decode_new(repo, v.ctx, a.get("mesh")) if a.get("mesh") is not None else None
-    out = None
-    for st in v.stmts():
-        if isinstance(st, ast.Assign) and isinstance(st.targets[0], ast.Name) and st.targets[0].id == "output":
-            out = v.term(st.value, at=st)
+    fo = find_assign(v, lambda t_, s_: (decode_call(v.ctx, t_) or ("",))[0] == ".GetOutput")
+    out = fo[2] if fo else None
     chk.require(out is not None and d is not None, "_from_vtk: output / mesh construction vanished")
     env = {"O": out}
     okm = v.eq(d[1].get("p1"), v.spec("O.GetBounds()[::2]", env=env)) and v.eq(d[1].get("p2"), v.spec("O.GetBounds()[1::2]", env=env)) and \
@@ -174,7 +173,8 @@ def d3_reader(chk, repo):
            "labels are dropped (None) unless there are exactly as many as components", v.f)
     special = set()
     for n in ast.walk(v.f.node):
-        if isinstance(n, ast.Compare) and isinstance(n.left, ast.Name) and n.left.id == "name":
+        if isinstance(n, ast.Compare) and isinstance(n.left, ast.Name) and \
+                any(isinstance(x, ast.Constant) and x.value in ("field", "valid", "norm") for c_ in n.comparators for x in ast.walk(c_)):
             for c_ in n.comparators:
                 for x in ast.walk(c_):
                     if isinstance(x, ast.Constant) and isinstance(x.value, str):
